@@ -183,11 +183,9 @@ func (p *provider) CreateScope(ctx context.Context) (Scope, error) {
 	// Auto-close on context cancellation
 	go func() {
 		<-ctx.Done()
-		if err := s.Close(); err != nil {
-			// Context cancellation cleanup errors are expected during shutdown
-			// and cannot be meaningfully handled, so we ignore them
-			_ = err
-		}
+		// Nobody receives the result here; a provider Close running at the
+		// same time picks a disposal error up
+		s.closeUnattended()
 	}()
 
 	return s, nil
@@ -234,6 +232,11 @@ func (p *provider) Close() error {
 			// A scope that is being disposed by somebody else (its parent or
 			// its cancellation watcher) must be done before singletons go
 			<-s.closed
+
+			// The watcher has nobody to report a failed disposal to
+			if err := s.takeUnreported(); err != nil {
+				errors = append(errors, fmt.Errorf("scope %s: %w", s.ID(), err))
+			}
 		}
 	}
 
